@@ -547,7 +547,7 @@ def _printable(consts: dict) -> dict:
 
 def _trace_consts() -> dict:
     return dict(BASE, MaxClock=999, MaxDepth=0, SysAlpha=[], RegAlpha=[], OpAlpha=[], Mode="trace",
-                MaxProp=0, MaxComp=0, MaxTimeout=0, MaxReqs=9999, Unit=UNIT_MW, Tol=TOL_MW)
+                MaxProp=0, MaxComp=0, MaxTimeout=0, MaxReqs=9999, MaxBack=9999, Unit=UNIT_MW, Tol=TOL_MW)
 
 
 def _design(rep: Report, sc: dict, work: Path) -> None:
